@@ -138,6 +138,18 @@ def check(ctx):
             bad = bad or ("fault", c.text(), "panic or abort on an unreadable / missing file")
         elif not err or not err[0][4:].startswith(expect):
             bad = bad or ("fault", c.text(), "expected %s..., got %s" % (expect, (err or lines)[:1]))
+    # `include whose file name comes out of a macro: whatever the expansion looks like, the result is a value
+    odd = ["`define L <\n`include `L\n", "`define OPEN(x) x\n`include `OPEN(<)\n", "`define OPEN(x) x\n`include `OPEN(\")\n",
+           "`define P <inc/dé\n`include `P\n", "`define Q \"x.svh\" é\n`include `Q\n", "`define E\n`include `E\n",
+           "`define A a.svh>\n`include `A\n", "`define B <\n`include `B \n", "`define C <>\n`include `C\n", "`define D \"\"\n`include `D\n",
+           "`define F(x) x\n`include `F(é)\n", "`define G  \n`include `G\n", "`define H <é\n`include `H\n", "`define I \"é\n"]
+    for j, t in enumerate(odd):
+        for entry in ("preprocess", "parse_sv"):
+            c = Case("o%d%s" % (j, entry)).add("file", hx("top.sv"), hx(t)).add("want", "text").add("run", entry, hx("top.sv"))
+            lines = run_harness("api", [c], "c08odd", timeout=120).get(c.id) or []
+            ctx.corr_cases += 1
+            if crashed(lines) or any(l.startswith("panic") for l in lines):
+                bad = bad or ("sv", t, "`include of a macro-made file name: %s" % (crashed(lines) or [l for l in lines if l.startswith("panic")][0][:120]))
     # unbounded-looking recursion: every cycle through `include and macro expansion must end in an error value
     cycles = [
         {"top.sv": '`define AGAIN `include "top.sv"\n`AGAIN\n'},
@@ -147,6 +159,10 @@ def check(ctx):
         {"top.sv": 'x\n`include "top.sv"\n'},
         {"top.sv": '`define R `R\n`R\n'},
         {"top.sv": '`define A `B\n`define B `include "top.sv"\n`A\n'},
+        {"top.sv": '`define APPLY(f) f(f)\n`APPLY(`APPLY)\n'},
+        {"top.sv": '`define CALL(f, x) f(f, x)\n`CALL(`CALL, 1)\n'},
+        {"top.sv": '`define P(f, g) g(g, f)\n`define Q(f, g) f(g, f)\n`P(`P, `Q)\n'},
+        {"top.sv": '`define SELF(x) x\n`define R `SELF(`R)\n`R\n'},
     ]
     for j, fs in enumerate(cycles):
         for entry in ("preprocess", "parse_sv"):
